@@ -172,7 +172,10 @@ func (p *Validator) validateBuffer(buf []byte, last bool) error {
 				continue
 			}
 		case numComma:
-			if 0 < len(p.stack) && p.stack[len(p.stack)-1] == '{' {
+			if len(p.stack) == 0 {
+				return p.newError(off, "unexpected comma")
+			}
+			if p.stack[len(p.stack)-1] == '{' {
 				p.mode = keyMap
 			} else {
 				p.mode = commaMap
